@@ -34,7 +34,8 @@ class Extract:
         self.entry = {}          # loop-head symbol -> its value on loop entry
 
         def on_loop(frame, head, H, res, havoc, lid):
-            if eng.mute or frame.key != fn["key"]:
+            # loops of the function itself and of the helpers it calls (e.g. an extracted `xor_chunk`)
+            if eng.mute or (frame.key != fn["key"] and frame.ctxname.split(" > ")[0] != fn["name"]):
                 return
             for (cell, kp), kind in havoc.items():
                 if kind == "int":
